@@ -106,6 +106,9 @@ pub fn file_set(name: &str) -> Vec<FileSpec> {
             f("dir\\s_encfix_zlib.txt", 400, "sparse", 0x02, 2),
             f("m_enc.bin", 1124, "incompressible", 0, 1),
             f("dir\\m_encfix_zlib.txt", 1124, "period2", 0x02, 2),
+            // position-adjusted key without compression: single unit and multi-sector
+            f("dir\\s_encfix.bin", 205, "period251", 0, 2),
+            f("m_encfix.bin", 1124, "incompressible", 0, 2),
         ],
         "codecs" => vec![
             f("s_bzip2.txt", 500, "period2", 0x10, 0),
@@ -164,6 +167,10 @@ pub fn catalogue(tier: Tier) -> Vec<ArchSpec> {
     push("v4only", 3, false, Attrs::None, true, false, false, false, "small");
     push("v4only", 3, false, Attrs::None, false, true, false, false, "small");
     push("crc", 3, true, Attrs::None, true, true, false, false, "small");
+    // the same behind a user-data header (archive offset 512: every header-relative position shifts)
+    push("v4only", 3, false, Attrs::None, false, false, false, true, "small");
+    push("crc+afull", 3, true, Attrs::Full, true, false, false, true, "small");
+    push("crc", 0, true, Attrs::None, false, false, false, true, "small");
     // attributes written by somebody else
     push("extattr", 0, false, Attrs::ExtMd5Only, false, false, false, false, "plain");
     push("extattr", 0, false, Attrs::ExtFullZlib, false, false, false, false, "zlib");
